@@ -27,6 +27,13 @@ class Restorer:
         else:
             parent = os.path.dirname(trashed_file.original_location)
             self.write_fs.mkdirs(parent)
+            # creating the parent can make a location spelled through a
+            # missing directory ("new/../name") resolve to an existing entry
+            if not overwrite and self.read_fs.path_exists(
+                    trashed_file.original_location):
+                raise IOError(
+                    'Refusing to overwrite existing file "%s".' %
+                    os.path.basename(trashed_file.original_location))
 
         self.write_fs.move(trashed_file.original_file, trashed_file.original_location)
         self.write_fs.remove_file(trashed_file.info_file)
